@@ -527,7 +527,7 @@ func (a *fnAn) buildLoads() {
 		}
 		if !killed {
 			for _, k := range calls {
-				if callMayTouch(k.ins.(ssa.CallInstruction), l.key.root) && between(k) {
+				if callMayTouchKey(k.ins.(ssa.CallInstruction), l.key, overlap) && between(k) {
 					killed = true
 					break
 				}
@@ -542,6 +542,57 @@ func (a *fnAn) buildLoads() {
 			a.loadRep[l.load] = best.load
 		}
 	}
+}
+
+// callMayTouchKey: the call is handed the root object itself (or something that reaches it
+// through a conversion), or the address of a part of it that overlaps the key. A callee that
+// receives only the address of another field of the same object (m.Random.MarshalFixed() while
+// the key is m.Cookie) cannot reach the key: Go has no pointer arithmetic.
+func callMayTouchKey(c ssa.CallInstruction, key addrKey, overlap func(a, b addrKey) bool) bool {
+	com := c.Common()
+	touches := func(v ssa.Value) bool {
+		if !derivesFrom(v, key.root, 0) {
+			return false
+		}
+		v = stripPointerWraps(v)
+		if v == key.root {
+			return true
+		}
+		if k, ok := keyOf(v); ok && k.root == key.root {
+			return overlap(k, key)
+		}
+		return true
+	}
+	if com.IsInvoke() && touches(com.Value) {
+		return true
+	}
+	for _, arg := range com.Args {
+		if touches(arg) {
+			return true
+		}
+	}
+	if mc, ok := com.Value.(*ssa.MakeClosure); ok {
+		for _, b := range mc.Bindings {
+			if touches(b) {
+				return true
+			}
+		}
+	}
+	return false
+}
+
+func stripPointerWraps(v ssa.Value) ssa.Value {
+	for i := 0; i < 6; i++ {
+		switch x := v.(type) {
+		case *ssa.ChangeType:
+			v = x.X
+		case *ssa.MakeInterface:
+			v = x.X
+		default:
+			return v
+		}
+	}
+	return v
 }
 
 func callMayTouch(c ssa.CallInstruction, root ssa.Value) bool {
